@@ -220,12 +220,12 @@ cfoldBCall(Foam bcall)
 	  case FOAM_BVal_CharIsDigit:
 		if (!cfoldFoldAll) break;
 		assert(foamTag(argv[0]) == FOAM_Char);
-		foam = foamNewBool(isdigit(argv[0]->foamChar.CharData));
+		foam = foamNewBool(isdigit(argv[0]->foamChar.CharData) != 0);
 		break;
 	  case FOAM_BVal_CharIsLetter:
 		if (!cfoldFoldAll) break;
 		assert(foamTag(argv[0]) == FOAM_Char);
-		foam = foamNewBool(isalpha(argv[0]->foamChar.CharData));
+		foam = foamNewBool(isalpha(argv[0]->foamChar.CharData) != 0);
 		break;
 	  case FOAM_BVal_CharEQ:
 		if (!cfoldFoldAll) break;
